@@ -8,8 +8,8 @@ from harness.framework import Suite
 
 PID = "C14"
 TRANSLATE = True
-TRANSLATE_ALGO = ["AlgoTraverse", "AlgoTravFront", "AlgoVolume"]     # harness/algo_specs/14_voltrav.py: _get_volume_frustum_cone with its `leave` closure
-DRIVER_FILES = ["SwcVerif/Model/AlgoRunVolume.lean"]
+TRANSLATE_ALGO = ["AlgoTraverse", "AlgoTravFront", "AlgoVolume", "AlgoVolFront"]     # harness/algo_specs/14_voltrav.py: _get_volume_frustum_cone with its `leave` closure
+DRIVER_FILES = ["SwcVerif/Model/AlgoRunVolume.lean", "SwcVerif/Model/AlgoRunVolFront.lean"]
 LEAN_MODS = ["SwcVerif.Props.C14", "SwcVerif.Props.C14Gen"]
 THEOREMS = [
     "C14.tree_volume_eq_sum", "C14.level1_every_tree", "C14.level2_every_tree", "C14.level3_every_tree", "C14.level5_every_tree",
@@ -551,7 +551,178 @@ class TreeVol(Suite):
         return case["tree"]["n"] >= 2
 
 
-SUITES = [TreeVol()]
+FRONT_REQUESTS = [("frustum_cone", 1), ("frustum_cone", 2), ("frustum_cone", 3), ("frustum_cone", 4), ("frustum_cone", 10), ("frustum_cone", "low"),
+                  ("frustum_cone", 0), ("frustum_cone", -1), ("frustum_cone", 11), ("frustum_cone", "Low"), ("frustum_cone", "medium"), ("frustum_cone", ""),
+                  ("sphere", 2), ("Frustum_cone", 3), ("frustum", 10), ("sphere", 0), ("sphere", 12), ("sphere", "high"), ("sphere", "nope")]
+CHAIN_REQUESTS = [("frustum_cone", 5), ("frustum_cone", 7), ("frustum_cone", 9), ("frustum_cone", "middle"), ("frustum_cone", "high")]
+MC_SENTINEL = 424242.5
+
+
+class _FakeSdflit:
+    """stand-ins for the sdflit objects `_get_volume_frustum_cone_mc_only` builds its scene from (patched into the namespace of
+    swcgeom.analysis.volume from the OUTSIDE, for the duration of one call): the scene records which shapes are added in which order"""
+
+    def __init__(self):
+        self.tags, self.log, self.keep = {}, [], []
+        outer = self
+
+        class Material:
+            def __init__(self, *a):
+                pass
+
+            def into(self):
+                return self
+
+        class Obj:
+            def __init__(self, sdf, material):
+                self.tag = outer.tags.get(id(sdf), ("?",))
+
+            def into(self):
+                return self
+
+        class Scene:
+            def set_background(self, *a):
+                pass
+
+            def add_object(self, o):
+                outer.log.append(o.tag)
+
+            def build_bvh(self):
+                pass
+
+            def bounding_box(self):
+                return (0.0, 0.0, 0.0), (1.0, 1.0, 1.0)
+
+            def into(self):
+                return self
+
+        class Sampler:
+            def __init__(self, *a):
+                pass
+
+            def sample(self, scene, n):
+                return np.zeros(1)
+
+        self.names = {"ColoredMaterial": Material, "SDFObject": Obj, "ObjectsScene": Scene, "UniformSampler": Sampler}
+
+
+def mc_scene(t, case_tree):
+    """the shapes the REAL `_get_volume_frustum_cone_mc_only` adds to its scene, in order, as node indices (`S<i>` sphere of node i, `F<i>:<j>`
+    frustum from node i to its child j): the library's classes are wrapped from the outside, /repo is not edited"""
+    import swcgeom.analysis.volume as V
+
+    fk = _FakeSdflit()
+    RealS, RealF = V.VolSphere, V.VolFrustumCone
+
+    class RecS(RealS):
+        def __init__(self, center, radius):
+            super().__init__(center, radius)
+            fk.keep.append(self.sdf); fk.tags[id(self.sdf)] = ("S", [float(x) for x in self.center], float(self.radius))
+
+    class RecF(RealF):
+        def __init__(self, c1, r1, c2, r2):
+            super().__init__(c1, r1, c2, r2)
+            fk.keep.append(self.sdf)
+            fk.tags[id(self.sdf)] = ("F", [float(x) for x in self.c1], float(self.r1), [float(x) for x in self.c2], float(self.r2))
+
+    saved = {k: getattr(V, k) for k in list(fk.names) + ["VolSphere", "VolFrustumCone"]}
+    try:
+        for k, v in fk.names.items():
+            setattr(V, k, v)
+        V.VolSphere, V.VolFrustumCone = RecS, RecF
+        V._get_volume_frustum_cone_mc_only(t)
+    finally:
+        for k, v in saved.items():
+            setattr(V, k, v)
+    xyz = np.array(case_tree["xyz"], dtype=np.float32)
+    r = np.array(case_tree["r"], dtype=np.float32)
+
+    def node(c, rad):
+        for i in range(len(r)):
+            if [float(x) for x in xyz[i]] == c and float(r[i]) == rad:
+                return i
+        return -99
+
+    out = []
+    for tag in fk.log:
+        if tag[0] == "S":
+            out.append(f"S{node(tag[1], tag[2])}")
+        elif tag[0] == "F":
+            out.append(f"F{node(tag[1], tag[2])}:{node(tag[3], tag[4])}")
+        else:
+            out.append("?")
+    return out
+
+
+class VolFront(Suite):
+    """`get_volume` as the user calls it (method / accuracy validation and dispatch, the accuracy names) and the scene of the Monte-Carlo-only
+    path, against the definitions GENERATED from the source on this run (Gen/AlgoVolFront.lean)"""
+    name = "c14.front"
+    case_timeout = 60
+
+    def cases(self, rng, tier, widen):
+        out = []
+        big = tier == "thorough" or widen
+        k = 0
+        for n in [1, 2, 3, 5] + ([8, 14] if big else []):
+            t = collinear_case(rng, "chain", n)
+            reqs = rng.sample(FRONT_REQUESTS, 7 if not big else len(FRONT_REQUESTS)) + rng.sample(CHAIN_REQUESTS, 2 if not big else len(CHAIN_REQUESTS))
+            out.append({"class": "front/chain", "tree": t, "requests": [list(q) for q in reqs]})
+        for n in [1, 2, 4, 7, 12] + ([25] if big else []):
+            for _ in range(1 if not big else 3):
+                t = gen.tree_case(rng, n, gen.pick_shape(rng, k), numbering=rng.choice(["sorted", "root0"]), coords="lattice"); k += 1
+                reqs = rng.sample(FRONT_REQUESTS, 7 if not big else len(FRONT_REQUESTS))
+                out.append({"class": "front/general", "tree": t, "requests": [list(q) for q in reqs]})
+        return out
+
+    def run(self, case):
+        import swcgeom.analysis.volume as V
+        from swcgeom.analysis import get_volume
+
+        np.random.seed(1)
+        t = gen.make_tree(case["tree"])
+        answers = []
+        real_mc = V._get_volume_frustum_cone_mc_only
+        try:
+            V._get_volume_frustum_cone_mc_only = lambda tree: MC_SENTINEL        # level 10 samples 1e8 points: only THAT it is called is observed here
+            for method, acc in case["requests"]:
+                try:
+                    answers.append(["ok", float(get_volume(t, method=method, accuracy=acc))])
+                except Exception as e:  # noqa: BLE001 - which exception is raised is what is compared
+                    answers.append(["exc", type(e).__name__])
+        finally:
+            V._get_volume_frustum_cone_mc_only = real_mc
+        return {"answers": answers, "prims": prim_terms(case["tree"]), "scene": mc_scene(t, case["tree"])}
+
+    def lines(self, case, res):
+        if "exc" in res or "answers" not in res:
+            return []
+        t = case["tree"]
+        topo = f"ids={gen.ints(range(t['n']))} pids={gen.ints(t['pids'])}"
+        pr = " ".join(f"{k}={','.join(repr(x) for x in res['prims'][k])}" for k in ("sph", "fr", "pc", "cc"))
+        out = []
+        for (method, acc), ans in zip(case["requests"], res["answers"]):
+            if acc == "":
+                continue                                   # an empty argument cannot be written on a protocol line
+            a = f"acc={acc}" if isinstance(acc, int) else f"accs={acc}"
+            exp = {"approx": [ans[1]], "rtol": 2e-5, "atol": 1e-5} if ans[0] == "ok" else f"E:{ans[1]}"
+            out.append((f"gvolfront op=get {a} method={method} {topo} {pr} mc={MC_SENTINEL!r}", exp))
+        out.append((f"gvolfront op=scene {topo}", " ".join(res["scene"])))
+        return out
+
+    def oracle(self, case, res):
+        if not isinstance(res, dict) or "exc" in res:
+            return [("front-raises", f"the instrumented run failed: {res!r}"[:300])]
+        out = []
+        for (method, acc), ans in zip(case["requests"], res.get("answers", [])):
+            lvl = {"low": 3, "middle": 5, "high": 8}.get(acc) if isinstance(acc, str) else acc
+            valid = method == "frustum_cone" and lvl is not None and 0 < lvl <= 10
+            if valid != (ans[0] == "ok"):
+                out.append(("front-validation", f"get_volume(method={method!r}, accuracy={acc!r}) -> {ans}"))
+        return out
+
+
+SUITES = [TreeVol(), VolFront()]
 TECHNIQUE = "Lean 4 theorems about the per-node inclusion–exclusion term list REGENERATED from analysis/volume.py (levels 1, 2, ≥3 for every tree; union identity for collinear chains over a finitely additive measure) + Float cross-check + quadrature oracle of the true union"
 LEVEL_TEXT = ("Kernel-checked: for every tree, level 1 = Σ spheres and level 2 = Σ spheres + Σ frusta; from level 3 the generated term list is "
               "Σ spheres + Σ (frustum − parent-sphere∩frustum − child-sphere∩frustum), which under the property's spacing hypotheses is the measure of "
